@@ -8,7 +8,7 @@ use crate::model::calendar as cal;
 use crate::model::cron_spec::{self, Sets, Spec};
 use crate::model::instant::*;
 use astrolabe::errors::AstrolabeError;
-use astrolabe::CronSchedule;
+use astrolabe::{CronSchedule, DateTime};
 use serde_json::{json, Value};
 
 const MIN_NS: i128 = 60 * NS;
@@ -20,7 +20,14 @@ pub fn observe_member(s: &CronSchedule, t: i64) -> Result<Option<bool>, Panic> {
     let Some((clk, _)) = sane_value((t - 1) as i128 * MIN_NS, 0) else { return Ok(None) };
     trap(|| {
         astrolabe::verif::pin_now(Some(clk));
-        let r = s.clone().next();
+        // the first result, pulled through next() or through one of the Iterator methods a type may override
+        let mut c = s.clone();
+        let r = match t.rem_euclid(5) {
+            0 => c.nth(0),
+            1 => c.by_ref().take(1).last(),
+            2 => c.by_ref().skip(0).next(),
+            _ => c.next(),
+        };
         astrolabe::verif::pin_now(None);
         match r {
             Some(dt) => super::diff::read_checked(&dt).map(|x| x == t as i128 * MIN_NS),
@@ -40,6 +47,8 @@ fn value_text(rng: &mut Rng, v: u32, field: usize) -> String {
     match field {
         3 if rng.chance(1, 2) => random_case(rng, MONTH_NAMES[v as usize - 1]),
         4 if rng.chance(1, 2) => random_case(rng, DOW_NAMES[(v % 7) as usize]),
+        // sometimes zero-padded (05, 007): acceptance unspecified, the denoted value is not
+        _ if rng.chance(1, 10) => format!("{:0w$}", v, w = 2 + rng.below(2) as usize),
         _ => v.to_string(),
     }
 }
@@ -244,6 +253,14 @@ fn window_iteration(rec: &mut Rec, expr: &str, sched: &CronSchedule, sets: &Sets
     rec.eval();
     rec.api("CronSchedule::next (window iteration)");
     rec.bin("sets/window-iterated");
+    let mode = rng.below(8);
+    let skip = 1 + rng.below(6) as usize;
+    let positions: Vec<usize> = match mode {
+        3 | 4 => (skip..n).collect(),
+        5 => (0..n / 2).map(|k| 2 * k).collect(),
+        _ => (0..n).collect(),
+    };
+    rec.bin(match mode { 1 => "pull/take", 2 => "pull/nth(0)", 3 => "pull/nth(k)-then-next", 4 => "pull/skip-take", 5 => "pull/step_by", 6 => "pull/for-loop", _ => "pull/next" });
     let Some((clk, _)) = sane_value(start as i128 * MIN_NS, 0) else {
         rec.bin(super::diff::SKIP_START);
         return;
@@ -252,13 +269,34 @@ fn window_iteration(rec: &mut Rec, expr: &str, sched: &CronSchedule, sets: &Sets
         astrolabe::verif::pin_now(Some(clk));
         let mut s = sched.clone();
         // Some(None) = iterator ended; None = a result that cannot be read trustworthily
-        let got: Option<Vec<Option<i128>>> = (0..n).map(|_| match s.next() {
+        let rd = |x: Option<DateTime>| match x {
             Some(d) => super::diff::read_checked(&d).map(Some),
             None => Some(None),
-        }).collect();
+        };
+        // the n results are pulled with next(), or through the Iterator methods a type may override (nth, skip, take,
+        // step_by, for-loops over by_ref); `positions` are the indices of the model's sequence each pull must equal
+        let got: Option<Vec<Option<i128>>> = match mode {
+            1 => s.by_ref().take(n).map(|d| rd(Some(d))).collect(),
+            2 => (0..n).map(|_| rd(s.nth(0))).collect(),
+            3 => std::iter::once(rd(s.nth(skip))).chain((skip + 1..n).map(|_| rd(s.next()))).collect(),
+            4 => s.by_ref().skip(skip).take(n - skip).map(|d| rd(Some(d))).collect(),
+            5 => s.by_ref().step_by(2).take(n / 2).map(|d| rd(Some(d))).collect(),
+            6 => {
+                let mut v = vec![];
+                for d in s.by_ref() {
+                    v.push(rd(Some(d)));
+                    if v.len() == n {
+                        break;
+                    }
+                }
+                v.into_iter().collect()
+            }
+            _ => (0..n).map(|_| rd(s.next())).collect(),
+        };
         astrolabe::verif::pin_now(None);
         got
     });
+    let expected: Vec<i64> = positions.iter().map(|k| expected[*k]).collect();
     let wit = |obs: Value| json!({"expression": expr, "clock_fixed_at": show(start as i128 * MIN_NS), "model_yields": expected.iter().take(8).map(|x| show(*x as i128 * MIN_NS)).collect::<Vec<_>>(), "observed": obs});
     match r {
         Err(p) => rec.violation(format!("C16|window|next|panic|{},{}", p.class, p.site()), || wit(p.to_json())),
@@ -311,6 +349,17 @@ fn judge_expression(rec: &mut Rec, expr: &str, rng: &mut Rng, origin: &'static s
     let wit = |obs: Value| json!({"expression": expr, "origin": origin, "model": match &spec { Spec::Accept(_) => "accept".to_string(), Spec::Reject(w) => format!("reject: {}", w), Spec::Unspecified(w) => format!("unspecified: {}", w) }, "observed": obs});
     match (&spec, r) {
         (_, Err(p)) => rec.violation(format!("C16|parse|panic|{},{}", p.class, p.site()), || wit(p.to_json())),
+        (Spec::Unspecified("leading zero"), Ok(Ok(s))) => {
+            // acceptance of zero-padded numbers is unspecified; what an accepted one denotes is not
+            match cron_spec::parse_lenient(expr) {
+                Spec::Accept(sets) if query => {
+                    rec.bin("parse/leading-zero-accepted:sets-judged");
+                    query_sets(rec, expr, &s, &sets, rng, thin);
+                    window_iteration(rec, expr, &s, &sets, rng);
+                }
+                _ => rec.bin("parse/unspecified-shape-skipped"),
+            }
+        }
         (Spec::Unspecified(_), _) => rec.bin("parse/unspecified-shape-skipped"),
         (Spec::Accept(sets), Ok(Ok(s))) => {
             rec.bin("parse/accept-accept");
@@ -557,8 +606,9 @@ pub fn run(ctx: &Ctx) -> PropResult {
         "accept side: expressions generated from the documented grammar (per field a list of 1–4 items from *, */n with n up to the field size, a, a-b; month/weekday names in random case; 7 and ranges ending in 7 in the weekday field; extra/odd whitespace) and, per field, every value, every range start/end, every step and every name; reject side: ALL single-character edits (delete / replace / insert over {{0-9 * , - / + space a-z é}}) of {} base expressions. Verdicts: Ok ⇔ the reference grammar accepts, Err(InvalidFormat) otherwise, never a panic; shapes the documentation does not settle (leading zeros, a-b/n, steps above the field size, ? L W #) are skipped. For accepted expressions the denoted sets are read back behaviourally — clock pinned at t−1 min, fresh clone, next()==t ⇔ t is a member — with one query per value of each field (other fields held at members; day queries on days where the other day field cannot satisfy the OR) plus random minutes; and by window iteration — 24 successive results of one clone under a fixed clock compared with the model's enumeration (also on day-of-month lists/steps/ranges across short months). A further workload plants one invalid item (out-of-range value, zero step, reversed range, empty, junk, signed, trailing range part) inside an otherwise valid list, also directly after a `*`; thorough adds all double edits of four short bases. Every case non-trivial; distinct by hash of the expression. Edit alphabet incl. characters whose case mapping lands on ASCII letters (ſ ı K İ). Boundary-shift sequences: an accepted expression, then as the next parse the same characters split differently (a field boundary moved by one character, two fields swapped), then the first again.",
         bases.len()
     );
+    meta.rule.push_str(" The first result / the window's results are pulled through next() and through the Iterator methods a type may override (nth, take, skip, step_by, for-loops over by_ref). Zero-padded numbers (05, 007, 0-07): whether they are accepted is unspecified, but an accepted expression must denote the sets of its numeric reading.");
     meta.required_bins = vec![
-        "sequence/boundary-shift","parse/accept-accept", "parse/reject-reject", "parse/unspecified-shape-skipped", "sets/queried", "sets/window-iterated", "invalid-item/in-list", "member/expected-yes", "member/expected-no"];
+        "sequence/boundary-shift","parse/accept-accept", "parse/reject-reject", "parse/unspecified-shape-skipped", "sets/queried", "sets/window-iterated", "pull/next", "pull/take", "pull/nth(0)", "pull/nth(k)-then-next", "pull/skip-take", "pull/step_by", "pull/for-loop", "parse/leading-zero-accepted:sets-judged", "invalid-item/in-list", "member/expected-yes", "member/expected-no"];
     meta.assumptions = vec!["the clock seen by CronSchedule::next is pinned through the cfg(astrolabe_verif) hook (thread-local)".into()];
     Ok((meta, out))
 }
